@@ -16,9 +16,7 @@ _str2int_ok = z3.Function("int_parses", z3.StringSort(), z3.BoolSort())
 _str2int = z3.Function("int_of", z3.StringSort(), z3.IntSort())
 _str2float_ok = z3.Function("float_parses", z3.StringSort(), z3.BoolSort())
 _str2float = z3.Function("float_of", z3.StringSort(), z3.RealSort())
-_acount = z3.RecFunction("acount", sort_of(ASTR), z3.IntSort(), z3.IntSort(), z3.IntSort())
-_s, _c, _n = z3.Const("acount_s", sort_of(ASTR)), z3.Int("acount_c"), z3.Int("acount_n")
-z3.RecAddDefinition(_acount, [_s, _c, _n], z3.If(_n <= 0, 0, _acount(_s, _c, _n - 1) + z3.If(aat(_s, _n - 1) == _c, 1, 0)))
+_acount = None
 
 PURE_BUILTINS = {"len", "range", "enumerate", "zip", "str", "int", "float", "bool", "isinstance", "list", "set", "dict",
                  "tuple", "sorted", "any", "all", "min", "max", "sum", "abs", "print", "iter", "next", "reversed", "type",
@@ -44,7 +42,11 @@ class CallMixin:
                 a = ctx.zbool(ctx.truth(self.eval(n.args[0])))
                 b = ctx.zbool(ctx.truth(self.eval(n.args[1])))
                 return SV(BOOL, a == b)
-        f = self.eval(n.func)
+        if ctx.spec and isinstance(n.func, ast.Name) and n.func.id in self.engine.spec_funcs \
+                and not isinstance(self.env.get(n.func.id), (Closure, C.Contract)):
+            f = self.engine.spec_funcs[n.func.id]      # a local variable may shadow a spec function's name
+        else:
+            f = self.eval(n.func)
         args = []
         for a in n.args:
             if isinstance(a, ast.Starred):
